@@ -19,7 +19,7 @@ ASSUMPTIONS = base.ASSUMPTIONS + [
     'an extra event for a watched parameter that was assigned but did not qualify for this watcher is tolerated and counted',
     'old of a coalesced event and the flush-round boundaries of queued callbacks are not asserted (statement is silent)',
 ]
-REQUIRED = {'deliveries': 10000, 'settle': 5000, 'ctx_opened': 3000, 'coalesced': 300, 'discards': 300, 'triggers': 300}
+REQUIRED = {'class_level_runs_on_an_inheriting_subclass': 100, 'deliveries': 10000, 'settle': 5000, 'ctx_opened': 3000, 'coalesced': 300, 'discards': 300, 'triggers': 300}
 FEATS = {'cascade', 'queued', 'unwatch', 'update', 'trigger', 'slots', 'batch', 'discard', 'updatectx', 'twins', 'rewatch'}
 
 setup = base.setup
